@@ -69,14 +69,34 @@ def run(ctx):
                     if ctx.rng.random() < 0.7:
                         v = ctx.rng.randrange(4) if kind == 2 else ctx.rng.choice([0, 1, 2, 3, (1 << min(bits, 16)) - 1, ctx.rng.randrange(1 << min(bits, 32))])
                         lines.append('set 0 %s %d' % (f, v))
+                lines.append('rows 0')
                 lines.append('ptype')
                 ms.append(('m%d' % len(ms), lines))
+        # the caching wrapper around packets that carry inner layers of their own
+        for k_ in ('IP', 'EthernetII', 'UDP', 'IPv6'):
+            ms.append(('m%d' % len(ms), ['newcc ' + k_, 'rows 0']))
+        tnames_h = (C.run_harness('h_pkt', [('tn', ['tnames'])]).get('tn') or ['T'])[0].split()[1:]
         mh = C.run_harness('h_pkt', ms)
         pairs += len(ms)
         for sid, lines in ms:
             cls = lines[0].split()[1]
             out = [l for l in mh.get(sid, []) if not l.startswith('!~')]
             last = out[-1] if out else ''
+            rl = [l for l in out if l.startswith('R M')]
+            if rl and tnames_h:
+                # in whatever state the object is: answering to T's flag (what find_pdu / rfind_pdu act on) only if it IS a T
+                tk = rl[-1].split()
+                mrow, drow = tk[2:2 + len(tnames_h)], tk[3 + len(tnames_h):]
+                wrong = [tnames_h[i] for i in range(min(len(mrow), len(drow))) if mrow[i] == '1' and drow[i] == '0']
+                if lines[0].startswith('newcc '):
+                    wrong = [w for w in wrong if w != cls]          # PDUCacher<X> answering to X itself is the recorded finding
+                if wrong:
+                    viol.append((True, 'K=%s%s after %s answers to the flag of %s without being one (find_pdu<%s> would hand it out as a %s)'
+                                 % ('PDUCacher<%s> around a packet with inner layers' % cls if lines[0].startswith('newcc ') else cls, '', [l for l in lines[1:-1]][:6], wrong[:4], wrong[0], wrong[0]),
+                                 {'name': cls, 'flag': type_of.get(cls, 0), 'type': type_of.get(cls, 0)}, wrong[0]))
+                    continue
+            if lines[0].startswith('newcc '):
+                continue
             if any(l.startswith('!!') for l in out):
                 viol.append((True, 'K=%s: %s after scalar setters' % (cls, [l for l in out if l.startswith('!!')][0]), {'name': cls, 'flag': type_of[cls], 'type': type_of[cls]}, cls))
             elif last.startswith('T ') and (int(last.split()[1]) != type_of[cls] or last.split()[2] != cls):
